@@ -405,10 +405,16 @@ def run(scn):
                     out.append(Violation('C12.callback', 'event_count seen by callbacks %r is not the number of earlier events %r'
                                          % (counts, [c[3] for c in cblog]), None, det))
         if events and not out:
-            same = (list(arg) == arg_before) if isinstance(arg, list) else (dict(arg) == arg_before and list(arg) == list(arg_before))
+            # the caller's table still says what it said: every original entry in its place with its response (entries a
+            # tidy implementation may have added at the end change nothing for a second run() with the same table)
+            if isinstance(arg, list):
+                same = list(arg)[:len(arg_before)] == arg_before
+            else:
+                same = all(k_ in arg and arg[k_] is v_ for k_, v_ in arg_before.items()) and list(arg)[:len(arg_before)] == list(arg_before)
             if not same:
-                out.append(Violation('C12.events_mutated', 'run() changed the events object it was given (a caller who keeps one table for '
-                                     'several run() calls gets a different table the second time)', None, {'stop': None}))
+                out.append(Violation('C12.events_mutated', 'run() changed the entries of the events object it was given: a caller who keeps '
+                                     'one table for several run() calls gets other answers (or another priority order) the second time',
+                                     None, {'stop': None}))
         if xa_bad and not out:
             out.append(Violation('C12.callback', 'a callback found extra_args=%r in the state dictionary, run() was given %r'
                                  % (xa_bad[0], scn['extra_args']), None, {'stop': None}))
